@@ -614,6 +614,19 @@ fn main() {
                 }
             }
             "C06" => {
+                // what the server sends is not subject to the limit it applies to what it receives: status exchanges whose
+                // response is longer than the configured maximum frame length (a small maximum; a favicon of 12-20 kB)
+                for i in 0..(4 * scale) {
+                    let p = base_params(&mut r, Intent::Status);
+                    let mut ads = base_ads(&mut r);
+                    let mut st = ServerStatus::default();
+                    if i % 2 == 1 { st.favicon = Some(format!("data:image/png;base64,{}", "iVBORw0KGgo".repeat(1100 + r.below(700) as usize))); }
+                    ads.status.0 = Ok(Some(st));
+                    let cl = rnd_sa(&mut r);
+                    let mut sc = build("C06", &mut r, &p, ads, None, cl, format!("status response longer than the inbound limit #{}", i));
+                    if i % 2 == 0 { sc.max_len = *r.pick(&[64, 100]); }
+                    run(sc, &mut r);
+                }
                 // single-frame deviations of the happy paths
                 let ids: Vec<i32> = (0..=0x20).chain([-1, 0x7f, 0x80].into_iter()).collect();
                 for intent in [Intent::Status, Intent::Login, Intent::Transfer] {
